@@ -125,6 +125,8 @@ pub struct LevelCfg {
     pub variants: Vec<(bool, bool)>,
     pub known: KnownFindings,
     pub max_orders: usize,
+    /// `Some(ms)`: every clock reading of the library is answered by a virtual clock advancing `ms` per reading
+    pub clock_step_ms: Option<u64>,
 }
 
 impl LevelCfg {
@@ -808,6 +810,27 @@ impl Subject for LevelSubject {
     }
 
     fn step(
+        &self,
+        rcd: &mut Recorder,
+        hist: &[u16],
+        aux: &Aux,
+        opi: u16,
+        seen: &dyn Fn(u128) -> bool,
+    ) -> StepOut<Aux> {
+        // the clock seam covers the whole replayed history, from the construction of the level on
+        struct ClockGuard(Option<crate::clock::VClock>);
+        impl Drop for ClockGuard {
+            fn drop(&mut self) {
+                crate::clock::restore(self.0);
+            }
+        }
+        let _clock = self.cfg.clock_step_ms.map(|ms| ClockGuard(crate::clock::set(Some(ms as i128 * 1_000_000))));
+        self.step_clocked(rcd, hist, aux, opi, seen)
+    }
+}
+
+impl LevelSubject {
+    fn step_clocked(
         &self,
         rcd: &mut Recorder,
         hist: &[u16],
